@@ -212,6 +212,7 @@ def rules(rep, m):
     stop_ordering(rep, r5, m)
 
     config_rule(rep, m)
+    demand_rule(rep, m)
 
     # R-C08-6 ------------------------------------------------------------
     r6 = rep.rule("R-C08-6", "a signal wakes only the first waiter: a process that is served from availability of several "
@@ -280,6 +281,94 @@ def config_rule(rep, m):
                   "NDEBUG / NASSERT / NLOGINFO compile out", floor=1)
     common.config_effects_rule(rep, r7, m, consequence=" - with the flag set the signal is never sent and the first waiter stays "
                                "blocked although its demand can be met")
+
+
+def _bool_env_eval(text, env):
+    """Evaluate a canonical C condition over small integers; None when it mentions something outside `env`."""
+    t = text
+    names = sorted(env, key=len, reverse=True)
+    for i, nm in enumerate(names):
+        t = t.replace(nm, " __v%d__ " % i)
+    t = t.replace("NULL", " 0 ")
+    t = re.sub(r"(?<=\d)[uU][lL]*", "", t)
+    t = t.replace("&&", " and ").replace("||", " or ")
+    t = re.sub(r"!(?!=)", " not ", t)
+    if re.search(r"[A-Za-z_](?<!__v)\w*", re.sub(r"__v\d+__|\band\b|\bor\b|\bnot\b", "", t)):
+        return None
+    if not re.fullmatch(r"[\s\w()<>=!+\-*]*", t):
+        return None
+    try:
+        return bool(eval(t, {"__builtins__": {}}, {"__v%d__" % i: env[nm] for i, nm in enumerate(names)}))
+    except Exception:
+        return None
+
+
+def demand_rule(rep, m):
+    """R-C08-8: the demand a waiter registers covers the condition it waits for."""
+    import itertools
+    r8 = rep.rule("R-C08-8", "the demand function registered with a wait is true whenever the condition the caller waits under "
+                  "is false: for every state of the object's fields, 'not (conditions that dominate the wait)' implies the "
+                  "demand (decided by enumeration over small field values; a waiter whose demand can be false while it could "
+                  "go on is passed over by the signal that was meant for it - a lost wake-up)", floor=6)
+    for f, c in inv.calls_to(m, "cmb_resourceguard_wait"):
+        rel = m.rel(f.file) or ""
+        if not rel.startswith(("src/", "include/")):
+            continue
+        cx = FuncCtx(m, f)
+        g_arg, d_arg = cx.canon(kids(c)[1]), cx.canon(kids(c)[2])
+        mm = re.fullmatch(r"&\(?(\w+)\)?->\w+", g_arg)
+        dn = d_arg.lstrip("&")
+        dk = m.resolve(f.unit, dn) if dn.isidentifier() else None
+        g = m.funcs.get(dk) if dk else None
+        if g is None or not mm:
+            r8.notes.append("%s: demand %s is not a named function of the library (forwarded from the caller)" % (f.name, d_arg))
+            continue
+        obj = mm.group(1)
+        gx = FuncCtx(m, g)
+        rets = [gx.canon(kids(x)[0]) for x in walk(g.body) if x["kind"] == "ReturnStmt" and kids(x)]
+        if len(rets) != 1 or not g.params:
+            r8.notes.append("%s: demand %s has %d return statements" % (f.name, dn, len(rets)))
+            continue
+        dtext = re.sub(r"\b%s->" % re.escape(g.params[0]["name"]), obj + "->", rets[0])
+        W = [cd for cd in inv.dominating_conditions(cx, f, c) if (obj + "->") in cd]
+        r8.instance("%s waits at %s under %s with demand %s: %s" % (f.name, g_arg, W, dn, dtext))
+        if not W:
+            r8.notes.append("%s: no state condition dominates the wait" % f.name)
+            continue
+        fields = sorted(set(re.findall(r"%s->[\w.]+" % re.escape(obj), " ".join(W) + " " + dtext)), key=len, reverse=True)
+        others = sorted(set(re.findall(r"\b[A-Za-z_]\w*\b", re.sub(r"%s->[\w.]+" % re.escape(obj), "", " ".join(W) + " " + dtext)))
+                        - {"NULL"})
+        bad = None
+        decided = True
+        dom_f = (0, 1, 2, 3)
+        dom_o = (1, 2, 3)            # a claim that is waited for is at least one unit
+        if len(fields) + len(others) > 6:
+            decided = False
+        else:
+            for vals in itertools.product(*([dom_f] * len(fields) + [dom_o] * len(others))):
+                env = dict(zip(fields + others, vals))
+                ws = [_bool_env_eval(w_, env) for w_ in W]
+                dv = _bool_env_eval(dtext, env)
+                if dv is None or any(w_ is None for w_ in ws):
+                    decided = False
+                    break
+                # unsigned differences that would wrap are not states of the object
+                if any(env[a_] < env[b_] for a_, b_ in re.findall(r"\((%s->[\w.]+) - (%s->[\w.]+)\)" % (re.escape(obj), re.escape(obj)),
+                                                                   " ".join(W) + " " + dtext) if a_ in env and b_ in env):
+                    continue
+                if not all(ws) and not dv:
+                    bad = env
+                    break
+        if not decided:
+            r8.notes.append("%s: the wait condition / demand %s is not a plain condition on the object's fields" % (f.name, dn))
+            continue
+        if bad is not None:
+            rep.finding(r8, f.name, "demand:does-not-cover", "%s waits at %s while %s, but registers the demand %s (%s): in the state "
+                        "%s the caller could go on and the demand is false, so a signal sent in that state passes the waiter over"
+                        % (f.name, g_arg, " and ".join(W), dn, dtext, {k_: v_ for k_, v_ in bad.items()}), where=m.rel(loc(c)))
+            r8.fail()
+        else:
+            r8.ok()
 
 
 def stop_ordering(rep, rule, m):
